@@ -4,6 +4,8 @@
 
 mod common;
 mod c02;
+mod c09;
+mod frames;
 mod c04;
 mod c05;
 mod cpr_ref;
@@ -92,6 +94,7 @@ fn dispatch(id: &str, ctx: &Ctx, rep: &Report) {
         "C02" => c02::run(ctx, rep),
         "C04" => c04::run(ctx, rep),
         "C05" => c05::run(ctx, rep),
+        "C09" => c09::run(ctx, rep),
         "C13" => c13::run(ctx, rep),
         "C14" => c14::run(ctx, rep),
         "C18" => c18::run(ctx, rep),
@@ -107,6 +110,7 @@ fn dispatch_replay(id: &str, w: &serde_json::Value, rep: &Report) {
         "C02" => c02::replay(w, rep),
         "C04" => c04::replay(w, rep),
         "C05" => c05::replay(w, rep),
+        "C09" => c09::replay(w, rep),
         "C13" => c13::replay(w, rep),
         "C14" => c14::replay(w, rep),
         "C18" => c18::replay(w, rep),
